@@ -53,10 +53,11 @@ Definition nmem (i : nat) (l : list nat) : bool := existsb (Nat.eqb i) l.
 Definition side_mid (nn i : nat) : rvtx := let j := (i + 1) mod nn in RM (Nat.min i j) (Nat.max i j).
 (** what must remain on the boundary of a parent with [nn] sides of which [sides] are refined:
     side i = (corner i -> corner i+1), split at its mid-side node iff i is refined *)
+Definition side_part (nn : nat) (sides : list nat) (i : nat) : list edge :=
+  let j := (i + 1) mod nn in
+  if nmem i sides then [(RC i, side_mid nn i); (side_mid nn i, RC j)] else [(RC i, RC j)].
 Definition expected_boundary (nn : nat) (sides : list nat) : list edge :=
-  flat_map (fun i => let j := (i + 1) mod nn in
-                     if nmem i sides then [(RC i, side_mid nn i); (side_mid nn i, RC j)] else [(RC i, RC j)])
-           (seq 0 nn).
+  flat_map (side_part nn sides) (seq 0 nn).
 (** every mid-side node used is one that exists: the mid-point of a *refined side* *)
 Definition mid_ok (nn : nat) (sides : list nat) (v : rvtx) : bool :=
   match v with
